@@ -16,6 +16,7 @@ var s1Components = map[string]string{
 	"transport (pkg/unixsocket SendMsg/RecvMsg/Close/SetDeadline)":                          "stub: in-memory ordered reliable packets, delivery is a simulator event",
 	"processes (forkexec.Runner.Start, kill, wait4)":                                        "stub: process table obeying forkexec's contract",
 	"clock": "stub: testing/synctest fake clock",
+	"goroutine scheduling inside the container package": "simulator: one event at a time with quiescence in between; at every select the simulator chooses the goroutine and the case (select seam); the environment's mutex is a channel lock (durably blocking)",
 }
 
 func s1Shape10(c *vcore.Ctx) *s1Shape {
@@ -145,7 +146,7 @@ func init() {
 		Components: s1Components,
 		Assumptions: []string{
 			"stub processes obey forkexec's documented contract (fail before callback / callback then fail / run); real wait4/kill semantics are world K's",
-			"states with two simultaneously ready select cases are not constructed (Go runtime picks among them at random and no seam can pin it)",
+			"every select of the container package is rewritten in the scratch copy (seamgen selectSeam): the goroutine parks in front of it and the simulator names the one case it may try, so states with several ready cases are constructed and the choice among them is the simulator's; the three selects the rule leaves alone (a default clause, an unlabelled continue in a body, nested in a case) run natively",
 		},
 		NeedNS:   false,
 		Quick:    vcore.Budget{Wall: 40 * time.Second, Shards: 16},
